@@ -21,6 +21,7 @@ import GgrsModel.Proofs.Monad
 import GgrsModel.Proofs.Queue
 import GgrsModel.Proofs.World
 import GgrsModel.Proofs.DelayStep
+import GgrsModel.Proofs.EntryPoint
 
 namespace Ggrs.SyncLayer
 
@@ -106,5 +107,42 @@ theorem C02_consistent_delay {G : Type} (step : G → List (Input × InputStatus
   have h := (DWInv_run step g0 a b h0 hrun).1
   exact (WInv_tick step g0 b.1 s' b.2 now reqs' ((savedFrames reqs').map fun f => (f, none)) h hadv
     (by simp [List.map_map, Function.comp_def])).2
+
+end Ggrs
+
+namespace Ggrs
+
+/-- **C02 (and with it C01, C04, C09, C11) at the real entry point.** Take any run of the world in
+which the calls may be calls of `advance_frame_core` itself — what `advance_frame` runs after
+polling: desync bookkeeping, the extra save of frame 0 on the first call, `update_player_disconnects`,
+`advance_rollback_frame`, the wait recommendation. For a successful rollback-mode call made while no
+running endpoint reports a disconnected player, with the game executing the returned requests: the
+request list passes the frame-consistency check from a check state that matches the game and ends
+at the new `current_frame()`, and the world invariant (session, game = replay, cells, their
+checksums, outgoing queue) holds again — so every all-schedules theorem applies to the next call. -/
+theorem C02_entry_point {G : Type} (step : G → List (Input × InputStatus) → G) (g0 : G) (csf : G → Option Nat)
+    (a b : P2P × GS G) (h0 : CInv2 step g0 csf a) (hrun : CWStar step csf a b)
+    (now : Nat) (s' : P2P) (reqs' : List Request)
+    (hmp : (b.1.maxPrediction == 0) = false)
+    (hng : ∀ s1, b.1.desyncPhase now = .ok s1 → NoGossip s1)
+    (hcall : b.1.advanceFrameCore now = .ok (s', .ok reqs')) :
+    CInv2 step g0 csf
+      (s'.userExecute (gameSaves step csf b.1.sync.cells.length b.2 reqs'), execGs step b.1.sync.cells.length b.2 reqs') ∧
+    ∃ c c', GInv step g0 b.1.sync.cells.length b.2 c ∧ ChkList b.1.sync.cells.length c reqs' c' ∧
+      c'.cur = s'.sync.currentFrame := by
+  have hb := CInv2_run step g0 csf a b h0 hrun
+  obtain ⟨hpath, s1, s3, hp1, hc1, hc3, hform⟩ := call_is_path step csf b.1 s' b.2 now reqs' hmp hng hcall
+  refine ⟨CInv2_run step g0 csf b _ hb hpath, ?_⟩
+  have h1 := (CInv2_run step g0 csf b (s1, b.2) hb hp1).1.1
+  have hn : s1.sync.cells.length = b.1.sync.cells.length := by rw [hc1.sync]
+  rcases hform with hadv | ⟨sy, r, hf0, hsv, hadv⟩
+  · obtain ⟨_, ⟨c, c', hg, hchk, hcur⟩, _⟩ := WInv_tick step g0 s1 s3 b.2 now reqs' ((savedFrames reqs').map fun f => (f, none)) h1 hadv
+      (by simp [List.map_map, Function.comp_def])
+    rw [hn] at hg hchk
+    exact ⟨c, c', hg, hchk, by rw [hcur, hc3.sync]⟩
+  · obtain ⟨_, ⟨c, c', hg, hchk, hcur⟩, _⟩ := WInv_tick0 step g0 s1 s3 b.2 now sy r reqs' ((savedFrames reqs').map fun f => (f, none)) h1 hf0 hsv hadv
+      (by simp [List.map_map, Function.comp_def])
+    rw [hn] at hg hchk
+    exact ⟨c, c', hg, hchk, by rw [hcur, hc3.sync]⟩
 
 end Ggrs
